@@ -1036,7 +1036,8 @@ def make_segment(data, mode, encoding=None):
     guessed_mode = find_mode(segment_data) if segment_mode != consts.MODE_BYTE else consts.MODE_BYTE
     if segment_mode is not None:
         # Check if user provided mode is applicable for the given segment_data
-        if segment_mode < guessed_mode:
+        if segment_mode < guessed_mode \
+                or segment_mode == consts.MODE_KANJI != guessed_mode and segment_length:
             raise ValueError(f'The provided mode "{get_mode_name(segment_mode)}" '
                              f'is not applicable for {segment_data!r}. '
                              f'Proposal: {get_mode_name(guessed_mode)}')
@@ -1080,8 +1081,12 @@ def make_segment(data, mode, encoding=None):
     elif segment_mode == consts.MODE_HANZI:
         # GBT 18284-2000 -- 6.4.5 Hanzi mode (page 18)
         # Note: len(segment.data)! segment.data_length = len(segment.data) / 2!!
+        if segment_length % 2:
+            raise ValueError(f'Invalid Hanzi bytes: {segment_data!r}')
         for i in range(0, segment_length, 2):
             code = (segment_data[i] << 8) | segment_data[i + 1]
+            if not 0xa1 <= segment_data[i + 1] <= 0xfe:
+                raise ValueError(f'Invalid Hanzi bytes: {code}')
             if 0xa1a1 <= code <= 0xaafe:
                 # For characters with GB2312 values from A1A1HEX to AAFEHEX:
                 # a) Subtract A1A1HEX from GB2312 value;
